@@ -870,9 +870,47 @@ def anchor_callers(F, key, depth=4):
     return out
 
 
-def must_pass_call(body, names, depth=2):
+EMPTY_PREDS = ("core::str::<impl str>::is_empty", "core::slice::<impl [T]>::is_empty", "LeanString::is_empty", "repr::Repr::is_empty")
+LEN_FNS = ("core::str::<impl str>::len", "core::slice::<impl [T]>::len", "LeanString::len", "repr::Repr::len")
+
+
+def empty_edge(body, sb, lab, what, subst=None):
+    """the switch edge (sb, lab) is taken exactly when the text / slice described by one of `what`
+    is empty: `x.is_empty()` true, or `x.len() == 0`"""
+    f = edge_fact(body, sb, lab)
+    if not f:
+        return False
+    isw = what if callable(what) else (lambda d: d in what)
+    if f[0] == "pred" and f[1] in EMPTY_PREDS and f[3] is True:
+        return isw(describe(body, f[2], 0, subst))
+    if f[0] == "cmp" and (f[2], f[3]) == (0, 0):
+        d = describe(body, f[1], 0, subst)
+        for ln in LEN_FNS:
+            if d.startswith(ln + "(") and d.endswith(")") and isw(d[len(ln) + 1:-1]):
+                return True
+    return False
+
+
+def reach_cut(body, start, stop=None, cut=None):
+    """blocks reachable from start along normal edges, not expanding `stop` blocks and not
+    following the switch edges `cut(sb, label)` accepts"""
+    seen, work = {start}, [start]
+    while work:
+        x = work.pop()
+        if stop and stop(x):
+            continue
+        for y, lab in body.succ(x, unwind=False):
+            if cut and isinstance(lab, tuple) and cut(x, lab[1]):
+                continue
+            if y not in seen:
+                seen.add(y)
+                work.append(y)
+    return seen
+
+
+def must_pass_call(body, names, depth=2, cut=None):
     """every path entry -> return of `body` passes a call to one of `names`, directly or inside a
-    non-anchor helper that itself always passes one"""
+    non-anchor helper that itself always passes one (paths through an edge `cut` accepts are exempt)"""
     F = body.facts
     blocks = set()
     for bb, t in body.calls():
@@ -885,5 +923,5 @@ def must_pass_call(body, names, depth=2):
                 blocks.add(bb)
     if not blocks:
         return False
-    reach = body.reachable(0, unwind=False, stop=lambda b: b in blocks)
+    reach = body.reachable(0, unwind=False, stop=lambda b: b in blocks) if cut is None else reach_cut(body, 0, lambda b: b in blocks, cut)
     return not any(body.term(b)["k"] == "return" and b not in blocks for b in reach)
